@@ -270,15 +270,24 @@ int32_t tls13FindSessionPsk(ssl_t *ssl,
 
         if (idLen >= 16 + 12 + 16)
         {
+            int32_t rc;
+
+            /* The key list is shared with matrixSslLoadSessionTicketKeys and
+               matrixSslDeleteSessionTicketKey: walk it and use the key only
+               with the lock held. */
+            matrixSessionTicketKeysLock();
             key = ssl->keys->sessTickets;
             while (key)
             {
                 if (!Memcmp(id, key->name, 16))
                 {
-                    return tls13DecryptTicket(ssl, key, id, idLen, pskOut);
+                    rc = tls13DecryptTicket(ssl, key, id, idLen, pskOut);
+                    matrixSessionTicketKeysUnlock();
+                    return rc;
                 }
                 key = key->next;
             }
+            matrixSessionTicketKeysUnlock();
         }
 #  endif
     }
